@@ -45,6 +45,7 @@ type c15Inv struct {
 	tagsPtr  uintptr
 	entryBad string
 	afterBad string
+	line     *client.Line // kept alive until the event is judged: otherwise the allocator may legitimately reuse the storage of a finished invocation
 }
 
 func runC15(c *Ctx) {
@@ -71,7 +72,7 @@ func runC15(c *Ctx) {
 
 		handler := func(h int) client.HandlerFunc {
 			return func(_ *client.Conn, l *client.Line) {
-				inv := &c15Inv{h: h, argsLen: len(l.Args)}
+				inv := &c15Inv{h: h, argsLen: len(l.Args), line: l}
 				mu.Lock()
 				exp := expect
 				open++
